@@ -291,6 +291,7 @@ def total_scan(ctx):
 
     filter_is_only_a_filter(ctx, "R19-f")
     scanned_ranges_are_passed_on_unchanged(ctx, "R19-g")
+    filter_is_anchored_as_a_whole(ctx, "R19-h")
 
 
 def filter_is_only_a_filter(ctx, rid):
@@ -386,3 +387,43 @@ def scanned_ranges_are_passed_on_unchanged(ctx, rid):
                         "an argument of run_rustfmt passes through %s: the requested line set is no longer the one the hunk headers "
                         "announce" % bad[0], [c.loc()])
     r.floor(rid, n, 1, "run_rustfmt calls in format-diff::run")
+
+
+def filter_is_anchored_as_a_whole(ctx, rid):
+    """R19-h: "the path matches the filter" means the whole path matches the whole expression"""
+    import re
+    from absint import Explorer, vkey
+    p, r = ctx.p, ctx.r
+    r.rule(rid, "format-diff::scan_diff compiles the user's `--filter` expression between anchors; the constant pieces of that "
+                "`format!` open a group after `^` and close it before `$` (`^(?:…)$`, `^(…)$`).  Without the group an alternation in "
+                "the expression takes one anchor each — `^foo\\.rs|bar\\.rs$` matches `foo.rs.orig` and `xbar.rs` — and files that "
+                "do not match the filter are formatted")
+    sd = p.fns.get("rustfmt_format_diff::scan_diff")
+    if sd is None:
+        r.undecidable(rid, "format-diff scan_diff not found")
+        return
+    fi = [i for i in range(1, sd.argc + 1) if sd.locals[i].replace("&", "").strip() == "str"]
+    ex = Explorer(sd)
+    n = 0
+    for c in sd.calls():
+        if not c.name.endswith("Regex::new") or not c.args or c.args[0][0] == "k":
+            continue
+        d = sd.derived_from(c.args[0][1][0])
+        if not (set(fi) & d["args"]):
+            continue
+        n += 1
+        pieces = None
+        for k in d["consts"]:
+            if isinstance(k[2], dict) and "promoted" in k[2]:
+                try:
+                    pieces = re.findall(r'"((?:[^"\\]|\\.)*)"', vkey(ex.eval_promoted(k[2]["promoted"])))
+                except Exception:
+                    pieces = None
+        ok = bool(pieces) and len(pieces) >= 2 and pieces[0].startswith("^") and pieces[0].rstrip().endswith(("(", "(?:")) \
+            and pieces[-1].startswith(")") and pieces[-1].endswith("$")
+        r.instance(rid, "scan_diff: the filter pattern is built from the pieces %s" % pieces, "ok" if ok else "violation", c.loc())
+        if not ok:
+            r.violation(rid, "scan_diff anchors the --filter expression without grouping it",
+                        "the pattern is assembled from %s around the user's expression: with an alternation in it the anchors bind "
+                        "to the first and the last alternative only" % pieces, [c.loc()])
+    r.floor(rid, n, 1, "patterns built from the --filter option")
